@@ -232,7 +232,8 @@ class World:
             else:
                 arg = spec['interval']
                 first = self.clock.now + spec['interval']
-            t = Timer(arg, ev, persist=spec['persist'])
+            # a one-shot timer is created the way most applications do it: without the persist argument (its default)
+            t = Timer(arg, ev, persist=True) if spec['persist'] else Timer(arg, ev)
             g = {'timer': t, 'expiry': first, 'interval': spec['interval'], 'persist': spec['persist'], 'dead': False,
                  'pending': False, 'fires': [], 'kind': spec['kind'], 'first': True}
             self.timers[k] = g
